@@ -559,8 +559,13 @@ func c10CoordRunTrace(t *testing.T, r *Run, lines []string) {
 	t0 := time.Now()
 	c := newC10CoordH(t)
 	h := c.h
-	// the generic per-op digest (C12) and export/import (C18) hooks follow single-application fixtures only
-	lastFix = nil
+	// C12's per-op digest of every store follows the hub application (keys, memos and block times are fixed: two
+	// OS processes must produce byte-identical hub state through real blocks too); the generic export/import
+	// hook of C18 swaps the application behind a fixture, which a coordinator chain cannot follow
+	lastFix = h.e.f
+	if c18Mode != "" {
+		lastFix = nil
+	}
 	fixEpoch++
 	mon := &c10Mon{h: h, r: r}
 	hash := sha256.New()
